@@ -13,6 +13,7 @@ import Driver.Cmd.TracePipeline
 import Driver.Cmd.EndToEnd
 import Driver.Cmd.PyIR
 import Driver.Cmd.PyIRRd
+import Driver.Cmd.PyIRTr
 /-
   Line-protocol driver: one operation per line on stdin, one canonical answer per line on
   stdout.  Byte strings and texts travel as hex.  Imports no Mathlib (so it links).
@@ -21,7 +22,7 @@ import Driver.Cmd.PyIRRd
 open Driver
 
 def allCommands : List (String × Cmd) :=
-  Driver.Kevent.commands ++ Driver.Pairing.commands ++ Driver.Render.commands ++ Driver.Callstacks.commands ++ Driver.TraceCodes.commands ++ Driver.Filters.commands ++ Driver.Format.commands ++ Driver.OsLog.commands ++ Driver.Flags.commands ++ Driver.Trace.commands ++ Driver.Container.commands ++ Driver.TracePipeline.commands ++ Driver.EndToEnd.commands ++ Driver.PyIR.commands ++ Driver.PyIRRd.commands
+  Driver.Kevent.commands ++ Driver.Pairing.commands ++ Driver.Render.commands ++ Driver.Callstacks.commands ++ Driver.TraceCodes.commands ++ Driver.Filters.commands ++ Driver.Format.commands ++ Driver.OsLog.commands ++ Driver.Flags.commands ++ Driver.Trace.commands ++ Driver.Container.commands ++ Driver.TracePipeline.commands ++ Driver.EndToEnd.commands ++ Driver.PyIR.commands ++ Driver.PyIRRd.commands ++ Driver.PyIRTr.commands
 
 def dispatch (line : String) : String :=
   match (line.trimAscii.toString.splitOn " ").filter (· ≠ "") with
